@@ -4,8 +4,8 @@ CONSTANTS
   W = 8
   Sizes <- SzExport
   Guarded = FALSE
-  JSizes <- JSQuick
-  JFlags <- JFQuick
+  JSizes <- JSAll
+  JFlags <- JFAll
   MaxStr = 6
 ACTION_CONSTRAINT Export
 VIEW ExportView
